@@ -55,6 +55,8 @@ impl Prop for C12 {
             } }
         }
         v.extend(crate::props::tty::tty_cases(&crate::props::tty::OPS_C12, tier, seed));
+        // the input arrives through a named pipe that is written exactly once (`mkfifo in; producer > in &`): same outcome as a regular file
+        for op in ["decrypt", "pass-decrypt", "encrypt", "pass-encrypt"] { for plen in [10usize, 70000] { v.push(case(&[("op", "fifo-input".into()), ("cmd", op.into()), ("plen", plen.to_string()), ("seed", rng.next().to_string())])); } }
         // the output cannot be delivered (-o on a full device, standard output on a full device, standard output on a pipe whose reader left):
         // whichever way the output is wired, the tool must not report success
         v.extend(crate::props::c10::C10.cases(tier, seed ^ 0x12).into_iter().filter(|c| get(c, "op") == "cli-devfull"));
@@ -63,6 +65,29 @@ impl Prop for C12 {
     fn run(&self, c: &Case, m: &mut Model) -> Outcome {
         if get(c, "kind") == "tty" { return crate::props::tty::run_tty_case(c, m); }
         if get(c, "op") == "cli-devfull" { return crate::props::c10::C10.run(c, m); }
+        if get(c, "op") == "fifo-input" {
+            let mut o = Outcome::default();
+            let fx = fixtures();
+            let mut rng = Rng::new(get(c, "seed").parse().unwrap_or(0));
+            let cmd = get(c, "cmd"); let plen = getn(c, "plen"); let plain = crate::gen::payload(rng.next(), plen); let pw = "pass123";
+            let keym = !cmd.starts_with("pass"); let decrypting = cmd.ends_with("decrypt");
+            let input: Vec<u8> = if !decrypting { plain.clone() } else if keym { imp::key_encrypt(&fx.alice.sk, &fx.alice.pk, &fx.bob.pk, None, None, &plain, &NOSCRIPT).out } else { imp::pass_encrypt(pw.as_bytes(), &rng.bytes(32), &plain, &NOSCRIPT).out };
+            let world = World { files: vec![(KR.to_string(), keyring(&[(&fx.alice, true), (&fx.bob, true)]).into_bytes())], env: vec![("KESTREL_PASSWORD".into(), if keym { if decrypting { fx.bob.pw.into() } else { fx.alice.pw.into() } } else { pw.into() })], stdin: vec![] };
+            let args: Vec<String> = match cmd { "decrypt" => sv(&["decrypt", "in.pipe", "-t", "bob", "-o", "out.bin", "-k", KR, "--env-pass"]), "encrypt" => sv(&["encrypt", "in.pipe", "-t", "bob", "-f", "alice", "-o", "out.bin", "-k", KR, "--env-pass"]),
+                "pass-decrypt" => sv(&["password", "decrypt", "in.pipe", "-o", "out.bin", "--env-pass"]), _ => sv(&["password", "encrypt", "in.pipe", "-o", "out.bin", "--env-pass"]) };
+            let obs = run_kestrel_wired(&world, &args, &Wiring { stdout: StdoutMode::Pipe, links: vec![], fifos: vec![("in.pipe".into(), input.clone())] });
+            o.validated += 1; o.nontrivial = Some(format!("fifo/{}/{}", cmd, plen)); o.tags.push(format!("input through a named pipe: {} -> exit {:?}", cmd, obs.exit));
+            let out = obs.file("out.bin").cloned().unwrap_or_default();
+            o.impl_obs = format!("exit={:?} timed_out={} out={}B sender={}", obs.exit, obs.timed_out, out.len(), sender_canon(&obs.sender())); o.model_obs = "as with a regular file: exit 0, complete output".into();
+            let label = format!("kestrel {} with the input on a named pipe that is written once ({} bytes)", args.join(" "), input.len());
+            if obs.timed_out { o.oracle_fail = Some(("outcome-independent-of-wiring".into(), format!("{}: the tool did not finish within 30 s (a regular file with the same bytes is processed at once)", label))); }
+            else if obs.exit != Some(0) { o.oracle_fail = Some(("outcome-independent-of-wiring".into(), format!("{}: exit {:?} {}", label, obs.exit, obs.stderr.trim().chars().take(120).collect::<String>()))); }
+            else if decrypting && out != plain { o.oracle_fail = Some(("exit-0=>full-plaintext-delivered".into(), format!("{}: exit 0 but the output holds {} bytes, the plaintext has {}", label, out.len(), plain.len()))); }
+            else if decrypting && keym && obs.sender() != Some(Ok("alice".to_string())) { o.oracle_fail = Some(("names-the-sender".into(), format!("{}: sender line {:?}", label, obs.sender()))); }
+            else if !decrypting { let d = if keym { imp::key_decrypt(&fx.bob.sk, &fx.bob.pk, &out, &NOSCRIPT) } else { imp::pass_decrypt(pw.as_bytes(), &out, &NOSCRIPT) };
+                if d.res != "ok" || d.out != plain { o.oracle_fail = Some(("exit-0=>valid-ciphertext-delivered".into(), format!("{}: the output does not decrypt back to the input ({})", label, d.res))); } }
+            return o;
+        }
         let mut o = Outcome::default();
         let fx = fixtures();
         let mut rng = Rng::new(get(c, "seed").parse().unwrap_or(0));
